@@ -204,6 +204,71 @@ func runC13(c *eng.Ctx) {
 		}
 	}
 
+	// a sequencer that cannot reserve ids answers 0 (the etcd sequencer's error path); the assignment built on it
+	// succeeds only past the non-zero edge
+	if fn := c.NeedFunc("weed/topology", "(*Topology).PickForWrite"); fn != nil {
+		next := eng.Find(fn, func(in ssa.Instruction) bool {
+			call, ok := in.(*ssa.Call)
+			return ok && call.Call.IsInvoke() && call.Call.Method.Name() == "NextFileId"
+		})
+		if len(next) != 1 {
+			c.Undecided("GUARD-refill", eng.FuncName(fn), fn.Pos(), "sequencer call not found")
+		} else {
+			id := next[0].(*ssa.Call)
+			nonZero := eng.PassEdges(fn, func(cond ssa.Value) (bool, bool) {
+				b, ok := cond.(*ssa.BinOp)
+				if !ok || b.X != ssa.Value(id) || !isZero(b.Y) {
+					return false, false
+				}
+				switch b.Op {
+				case token.NEQ, token.GTR:
+					return true, true
+				case token.EQL:
+					return true, false
+				}
+				return false, false
+			})
+			var succ []ssa.Instruction
+			for _, r := range eng.Find(fn, eng.IsReturn) {
+				ret := r.(*ssa.Return)
+				if eng.IsNilConst(ret.Results[len(ret.Results)-1]) && eng.Mentions(ret.Results[0], 6, func(v ssa.Value) bool { return v == ssa.Value(id) }) {
+					succ = append(succ, r)
+				}
+			}
+			if len(succ) == 0 {
+				c.Undecided("GUARD-refill", eng.FuncName(fn)+" success", fn.Pos(), "success return built from the sequencer's answer not found")
+			} else {
+				c.Guard("GUARD-refill", "no-assignment-without-a-reserved-id", fn, eng.Entry(fn), succ, nonZero, "a file id is handed out only when the sequencer reserved one (0 = reservation failed)")
+			}
+		}
+	}
+	for _, name := range []string{"(*EtcdSequencer).NextFileId"} {
+		if fn := c.NeedFunc("weed/sequence", name); fn != nil {
+			batch := eng.Find(fn, eng.PlainCallTo("sequence.batchGetSequenceFromEtcd"))
+			if len(batch) == 1 {
+				e := eng.ErrOf(batch[0])
+				okZero := len(eng.PassEdges(fn, eng.ErrNotNil(e))) > 0
+				for _, st := range startsOf(eng.PassEdges(fn, eng.ErrNotNil(e))) {
+					if hit, _ := eng.Search(st, func(in ssa.Instruction) bool {
+						r, ok := in.(*ssa.Return)
+						if !ok {
+							return false
+						}
+						for _, v := range eng.Resolve(r.Results[0]) {
+							if !isZero(v) {
+								return true
+							}
+						}
+						return false
+					}, eng.SearchOpt{}); hit != nil {
+						okZero = false
+					}
+				}
+				c.Ob("GUARD-refill", eng.FuncName(fn)+" failed-reservation-answers-zero", okZero, batch[0].Pos(), "when the batch cannot be reserved the sequencer answers 0 and serves nothing from a window it does not own")
+			}
+		}
+	}
+
 	// ---------------------------------------------------------------- (4) ORDER-heartbeat
 	if fn := c.NeedFunc("weed/server", "(*MasterServer).SendHeartbeat"); fn != nil {
 		setMax := eng.PlainCallTo("sequence.Sequencer).SetMax")
